@@ -168,11 +168,13 @@ impl Prop for C19 {
       let slides = |list: &[(String, f32)]| {
         list.iter().enumerate().any(|(i, a)| rank0.get(&a.0).map(|r| *r >= wn).unwrap_or(false) && list[i + 1..].iter().any(|b| rank0.get(&b.0).map(|r| *r < wn).unwrap_or(false)))
       };
-      // the page is a (possibly shorter) prefix of the expected page
-      let is_prefix = got.len() <= want_page.len() && page_eq(&got, &want_page[..got.len()]);
+      // the surviving window hits come first and are right; only what follows them (the refill
+      // from behind the window) is short or, with per-segment fetching, wrong
+      let surv = (wn - rejected).min(got.len()).min(want_page.len());
+      let is_prefix = got.len() <= want_page.len() && page_eq(&got[..surv], &want_page[..surv]);
       let legacy_top_k = req["candidate_size"].as_u64().unwrap_or(0).max(limit as u64) as usize + 1;
       if deep_ok && rejected > 0 && is_prefix {
-        s.fail("rescore.page-short-after-drops", "min_score removals are not refilled from beyond the fetched max(limit,candidate_size,window_size)+1 hits: page shorter than limit or next_cursor missing although more matches exist", case, obs);
+        s.fail("rescore.page-short-after-drops", "min_score removals are not refilled from beyond the fetched max(limit,candidate_size,window_size)+1 hits: page shorter than limit, completed with hits from one segment's surplus, or next_cursor missing although more matches exist", case, obs);
       } else if deep_ok && w > legacy_top_k && initial.hits.len() > legacy_top_k {
         // repaired by /repo 089be57 (status fixed in known_findings.json: reported as a violation again)
         s.fail("rescore.window-beyond-fetched", "window_size exceeds the hits that are fetched before rescoring: hits of the window are neither rescored nor returned", case, obs);
